@@ -212,6 +212,19 @@ def cbmc_cmd(ob, gb, trace=False, prop=None, entry=None):
     return cmd
 
 
+JQ_COMPACT = r'''
+[ .[] | if (type == "object") and has("result") then
+    { result: [ .result[] | select(.status != "SUCCESS" or (.description|startswith("P:")) or (.description|startswith("W:")) or ((.property // "")|contains(".assertion."))) | del(.trace) ],
+      okCounts: ( [ .result[] | select(.status == "SUCCESS") | (.property // "") as $p | .description as $d |
+          if ($d|startswith("P:")) or ($d|startswith("W:")) then empty
+          elif ($p|contains(".unwind.")) or ($d|startswith("unwinding assertion")) or ($p|contains(".recursion")) then "U"
+          elif ($p|contains(".overflow.")) or ($p|contains(".pointer_arithmetic.")) or ($p|contains(".undefined-shift.")) then "O"
+          elif ($p|contains(".assertion.")) then empty
+          else "M" end ] | group_by(.) | map({(.[0]): length}) | add // {} ) }
+  else . end ]
+'''
+
+
 def parse_cbmc(out):
     """Return (props, messages, stats). props: list of dict(property,status,description,file,function,line,trace)"""
     props, msgs = [], []
@@ -250,6 +263,11 @@ def parse_cbmc(out):
                               "description": r.get("description", ""),
                               "file": sl.get("file", ""), "function": sl.get("function", ""),
                               "line": sl.get("line", ""), "trace": r.get("trace")})
+        if "okCounts" in e:
+            # output compacted by JQ_COMPACT: successful built-in checks arrive as per-class counts
+            for k, v in e["okCounts"].items():
+                stats.setdefault("ok_counts", {})
+                stats["ok_counts"][k] = stats["ok_counts"].get(k, 0) + v
         if "cProverStatus" in e:
             stats["verdict"] = e["cProverStatus"]
     return props, msgs, stats
@@ -424,13 +442,21 @@ def run_obligation(ob, work, extra_defs=(), want_trace_for=None, only_entries=No
             # one shell loop runs all entry points (forking from this large multi-threaded process per entry is slow)
             script = os.path.join(work, ob.name + ("-kf" if extra_defs else "") + "-run.sh")
             base = cbmc_cmd(ob, gb, entry="@ENTRY@")
+            jqf = os.path.join(work, "compact.jq")
+            if not os.path.exists(jqf):
+                with open(jqf + ".tmp%d" % os.getpid(), "w") as f:
+                    f.write(JQ_COMPACT)
+                os.replace(jqf + ".tmp%d" % os.getpid(), jqf)
             with open(script, "w") as f:
-                f.write("#!/bin/sh\nfor i in %s; do\n" % " ".join(str(i) for i in idxs))
+                # cbmc's JSON (10-25 MB per scenario: every built-in check with its source location) is reduced by jq
+                # to the failed / property / witness entries plus per-class counts of the successful built-in checks,
+                # so that this (single-threaded) Python process does not parse gigabytes
+                f.write("#!/bin/bash\nfor i in %s; do\n" % " ".join(str(i) for i in idxs))
                 f.write("  timeout %d " % ob.timeout + " ".join("'%s'" % c for c in base).replace("@ENTRY@", "harness_$i").replace("'harness_$i'", "\"harness_$i\"") +
-                        " > '%s.out.'$i 2> '%s.err.'$i\n" % (gb, gb))
-                f.write("  echo $? > '%s.rc.'$i\ndone\n" % gb)
+                        " 2> '%s.err.'$i | jq -c -f '%s' > '%s.out.'$i\n" % (gb, jqf, gb))
+                f.write("  echo ${PIPESTATUS[0]} > '%s.rc.'$i\ndone\n" % gb)
             res["cmd"] = " ".join(base[:1] + ["<gb>"] + base[2:])
-            rc, out, errt, dt, to = run(["sh", script], timeout=ob.timeout * len(idxs) + 60, mem_gb=ob.mem_gb)
+            rc, out, errt, dt, to = run(["bash", script], timeout=ob.timeout * len(idxs) + 60, mem_gb=ob.mem_gb)
             res["cbmc_s"] = round(dt, 2)
             if to:
                 res["status"] = "timeout"
@@ -476,6 +502,9 @@ def run_obligation(ob, work, extra_defs=(), want_trace_for=None, only_entries=No
                 return res
             for p in eprops:
                 p["entry"] = ent
+            for k, v in (estats.get("ok_counts") or {}).items():
+                res.setdefault("_ok_counts", {}).setdefault(k, 0)
+                res["_ok_counts"][k] += v
             if ob.n_entries:
                 # keep memory bounded: successful built-in checks are only counted
                 keep = []
